@@ -41,3 +41,25 @@ impl AddAssignSpecImpl for Stats {
 //@freefn src/quantile.rs ci_indices ret r
 //@| requires conf_valid(confidence),
 //@| ensures r == qci_spec(confidence, data_len, quantile),
+
+// ---- the element-level entry point on pre-sorted data (generic element type): order statistics at the ranks
+//@impl src/interval.rs impl<T: PartialOrd + Clone> From<Interval<T>> for (Option<T>, Option<T>)
+//@fn from ret r
+//@| ensures r == opt_pair_of(interval),
+//@endimpl
+impl<T: PartialOrd + Clone> vstd::std_specs::convert::FromSpecImpl<Interval<T>> for (Option<T>, Option<T>) {
+    open spec fn obeys_from_spec() -> bool { true }
+    open spec fn from_spec(i: Interval<T>) -> Self { opt_pair_of(i) }
+}
+pub open spec fn opt_pair_of<T: PartialOrd>(i: Interval<T>) -> (Option<T>, Option<T>) {
+    match i {
+        Interval::TwoSided(l, h) => (Some(l), Some(h)),
+        Interval::UpperOneSided(l) => (Some(l), None),
+        Interval::LowerOneSided(h) => (None, Some(h)),
+    }
+}
+//@freefn src/quantile.rs ci_sorted_unchecked ret r
+//@subst "indices.into()" => "<(Option<usize>, Option<usize>)>::from(indices)"
+//@| requires conf_valid(confidence), T::obeys_partial_cmp_spec(),
+//@| ensures qci_spec(confidence, sorted.len(), quantile) is Err ==> r is Err && r->Err_0 == qci_spec(confidence, sorted.len(), quantile)->Err_0,
+//@|         qci_spec(confidence, sorted.len(), quantile) is Ok ==> elements_at(qci_spec(confidence, sorted.len(), quantile)->Ok_0, sorted@, r),
